@@ -55,6 +55,20 @@ theorem C09_returns_within_timeout (F : MethodFacts) (path : Path) (T waited : N
   · exact Nat.le_refl _
   · exact Nat.zero_le _
 
+/-- the time a TCP connection takes to come up is part of the one timeout, not in addition to it: with the
+    regenerated fact (SendTCP computes `deadline` once and hands that value to the dialer and to the
+    connection) a controller that accepts late and never answers makes the call return exactly one
+    timeout after the port was acquired, whatever the connect time -/
+theorem C09_tcp_connect_time_counts (T connect : Nat) :
+    tcpStallReturn Gen.Driver.tcpSingleDeadline T connect = T := by
+  have h : Gen.Driver.tcpSingleDeadline = true := by decide
+  unfold tcpStallReturn
+  rw [h]
+  split <;> rfl
+
+/-- … and why the fact matters: a deadline recomputed after the connect adds the connect time -/
+example : tcpStallReturn false 2500 1000 = 3500 := by decide
+
 /-- with no acceptable datagram the call fails (an error result), never a made-up value -/
 theorem C09_silence_is_an_error (F : MethodFacts) (path : Path) (T waited : Nat) :
     (exchange F path T waited .none []).1 = false ∧ (exchange F path T waited .stall []).1 = false := by
